@@ -5,10 +5,10 @@
 set -u
 ID=$1; N=$2; shift 2
 CHECKS=${*:-$ID}
-src=${MUTSRC:-/tmp/mut_out}/$ID/$N
+src=${MUTSRC:-/verif/seeded}/$ID/$N
 dst=/verif/seeded/$ID/${DSTN:-$N}
 mkdir -p "$dst"
-cp "$src"/patch.diff "$src"/meta.json "$dst"/ 2>/dev/null
+[ "$src" -ef "$dst" ] || cp "$src"/patch.diff "$src"/meta.json "$dst"/ 2>/dev/null
 for f in demo.py demo.sh demo.rs; do [ -f "$src/$f" ] && cp "$src/$f" "$dst"/; done
 d=$(mktemp -d /tmp/cm_${ID}_${N}.XXXX); rmdir "$d"
 git -C /repo worktree add -q --detach "$d" HEAD || exit 9
